@@ -14,7 +14,7 @@ From Coq Require Import NArith ZArith List Bool.
 From MZ.lib Require Import Mach.
 From MZ.model Require Import InflateCore InflateStream.
 From MZ.spec Require Import Adler Zlib.
-From MZ.proofs Require Import Protocol InflateStreamCounts StoredSpec InflateStoredStream InflateStreamProgress InflateStoredFinishTruncated.
+From MZ.proofs Require Import Protocol InflateStreamCounts StoredSpec InflateStoredStream InflateStreamProgress InflateStoredFinishTruncated InflateStoredStable.
 Import ListNotations.
 Local Open Scope N_scope.
 
@@ -153,3 +153,40 @@ Example C13_finish_truncated :
   | _ => False
   end.
 Proof. vm_compute. split; reflexivity. Qed.
+
+(* "stream-end ... is stable afterwards", on streams of stored blocks: after ANY sequence of calls (without Finish / Full)
+   that has brought the object to the end of the stream (last status Done, nothing pending in the window), all
+   plaintext has been handed out, and a further call given input and output space reports MZ_STREAM_END again, consuming
+   nothing and writing nothing.  (sfeedp is the caller's loop sfeed, returning also the input the last call left) *)
+Theorem C13_stream_end_is_stable_on_stored_streams_partial :
+  forall fmt cmf flg A chunks last extra calls later codes acc s' left piece out_len flush,
+  cmf < 256 -> flg < 256 -> valid_header (Z.of_N cmf) (Z.of_N flg) = true -> A < 2 ^ 32 ->
+  chunks_ok chunks -> bytes_ok last -> N.of_nat (length last) <= 65535 ->
+  let data := concat chunks ++ last in
+  let zl := zl_of fmt in
+  let stream := (if zl then [cmf; flg] else []) ++ stored_stream chunks last ++ (if zl then be32 A else []) in
+  let offered := concat (map (fun it : list N * N * N => fst (fst it)) calls) in
+  Forall (fun it : list N * N * N => snd it <> FL_FINISH /\ snd it <> FL_FULL) calls ->
+  offered ++ piece ++ later = stream ++ extra ->
+  N.of_nat (length (offered ++ piece)) < 2 ^ 57 -> N.of_nat (length data) < 2 ^ 40 ->
+  sfeedp (is_new fmt) [] calls [] [] = Ret (codes, acc, s', left) ->
+  is_last s' = Done -> is_avail s' = 0 ->
+  left ++ piece <> [] -> 0 < out_len -> flush <> FL_FINISH -> flush <> FL_FULL ->
+  acc = data /\
+  exists r, inflate s' (left ++ piece) out_len flush = Ret r /\
+            sr_code r = MZ_STREAM_END /\ sr_in r = 0 /\ sr_out r = [].
+Proof. exact stream_end_stable_after_any_schedule. Qed.
+
+Example C13_stream_end_stable_runs :
+  let data := [97; 98; 99; 100; 101] in
+  let stream := 120 :: 1 :: stored_stream [[97; 98; 99]] [100; 101] ++ be32 (adler32 1 data) in
+  match sfeedp (is_new FZlib) [] [(stream ++ [9; 9], 100, 0)] [] [] with
+  | Ret (codes, acc, s', lft) =>
+      codes = [MZ_STREAM_END] /\ acc = data /\ is_last s' = Done /\ is_avail s' = 0 /\ lft = [9; 9] /\
+      match inflate s' lft 10 0 with
+      | Ret r => sr_code r = MZ_STREAM_END /\ sr_in r = 0 /\ sr_out r = []
+      | _ => False
+      end
+  | _ => False
+  end.
+Proof. vm_compute. repeat split; reflexivity. Qed.
